@@ -1441,3 +1441,43 @@ for _sz in ((), (1,), (2, 3)):
     _nm = "_".join(map(str, _sz)) or "empty"
     HARNESSES["c03_built_" + _nm] = (lambda sz: (lambda ctx: built_package_checks(ctx, sz, "c03")))(_sz)
     HARNESSES["c16_built_" + _nm] = (lambda sz: (lambda ctx: built_package_checks(ctx, sz, "c16")))(_sz)
+
+
+# ---------------------------------------------------------------------------------------------------------
+# C17: required metadata of any length - PackageBuilder::new(name of N bytes, ..).build() returns, never panics
+# ---------------------------------------------------------------------------------------------------------
+def c17_name(ctx, n, field="name"):
+    ex = Exec(ctx.funcs, intrinsics.I, max_steps=4000000)
+    ctx.stats = ex.stats
+    ctx.bounds = "PackageBuilder::new with a %s of %d symbolic lower-case letters, build() from MIR (the lead keeps 65 name bytes and a terminator)" % (field, n)
+
+    def setup(e):
+        return sym_bytes(e, "nm", n, 0x61, 0x7a)
+
+    def body(e, inp):
+        clock_stub(e)
+        new = ctx.impl_fn("new", None, "PackageBuilder")
+        vals = dict(name=Str.lit(b"n"), version=Str.lit(b"1"), lic=Str.lit(b"MIT"), arch=Str.lit(b"noarch"), summary=Str.lit(b"s"))
+        vals[field] = Str(list(inp))
+        b = e.call_fn(new, [vals["name"], vals["version"], vals["lic"], vals["arch"], vals["summary"]])
+        b = e.call_fn(ctx.impl_fn("compression", None, "PackageBuilder"), [b, Adt("CompressionWithLevel", "None")])
+        return e.call_fn(ctx.impl_fn("build", None, "PackageBuilder"), [b])
+
+    def on_path(e, inp, out):
+        k, v = out
+        if k != "return":
+            ctx.fail("building a package whose %s has %d bytes panics: %s" % (field, n, v), "PackageBuilder::build", kind="c17name", n=n, field=field)
+            return
+        ctx.cover("package built", v.variant == "Ok")
+    ex.run_all(setup, body, on_path)
+
+
+def replay_c17name(ctx, fl):
+    ans = ctx.native.ask("build_name", fl.get("field", "name"), str(fl.get("n", 66)))
+    return ans == "panic", "real crate: PackageBuilder::new with a %s of %d bytes, build() -> %s" % (fl.get("field", "name"), fl.get("n", 66), ans)
+
+
+for _n in (64, 65, 66, 67, 300):
+    HARNESSES["c17_name_%d" % _n] = (lambda n: (lambda ctx: c17_name(ctx, n)))(_n)
+HARNESSES["c17_version_300"] = lambda ctx: c17_name(ctx, 300, "version")
+REPLAYERS["c17"] = (lambda prev: (lambda ctx, fl: replay_c17name(ctx, fl) if fl.get("kind") == "c17name" else prev(ctx, fl)))(REPLAYERS["c17"])
